@@ -23,20 +23,25 @@
          as set equality; has_condorcet invariant; regrouping (owners' *_regroup theorems);
      (4) witnesses: a witness accepted on the original input is accepted, renamed, on the renamed input.
 
+   Round 3 additions: eucl_decide (exact reference) under reordering / renaming as a boolean identity; the mirrors of
+   is_one_euclidean (every sound + complete LP oracle, and the extracted exact one), of k_alternative_deletion (optimum,
+   every admissible enumeration order) and of k_alternative_partition_brut_force (found / number of axes, every
+   set-iteration order) under reordering and renaming; is_part under reordering of the ballots.
+
    NOT PROVED (stated nowhere below):
-     - is_part's OUTPUT under reordering of the ballots (the list of parts is produced in ballot order; its verdict is
-       part_decide, which is invariant: part_decide_reorder).
-     - eucl_decide (Fourier-Motzkin reference) under relabelling as a boolean identity; the specification-level
-       statements Euclidean_relabel_iff / Euclidean_perm and eucl_decide_correct (C19) give it for well-formed
-       profiles, not restated here.
-     - the mirror of k_alternative_deletion (Model/ELPDP.v) has only soundness / bound theorems (elp_sound, elp_bound), no
-       exact-optimum theorem, so no invariance of its optimum is derivable yet; the reference optimum min_alt_del is invariant.
-     - tree checker: only the direction "accepted => accepted after renaming" (what witness transport needs). *)
+     - is_part's output LIST under reordering of the ballots is NOT invariant (is_part_list_order_refuted): the parts
+       come in order of first occurrence and each part lists its members as the first ballot with that approval set
+       does.  What is true and proved: same verdict, and the same partition as a set of sets (is_part_reorder).
+     - tree checker: only the direction "accepted => accepted after renaming" (what witness transport needs).
+     - invariance statements for the mirrors carry the owners' well-formedness hypotheses on BOTH presentations where
+       a renaming is involved (wf_profile of the renamed profile follows from injectivity; it is kept as a hypothesis
+       for sc_algo / elo / eucl_algo, derived inside the proof for the DP and brute-force mirrors). *)
 From Coq Require Import List Arith NArith ZArith QArith Bool Permutation Lia.
 From PrefVerif Require Import Lib.Val Model.Relabel.
 From PrefVerif Require Model.SP Model.SC Model.Tree Model.Deletion Model.Partition Model.Euclid Model.C1P Model.Approval
   Model.Scoring Model.Bucklin Model.Pairwise Model.SCAlgo Model.TreeAlgo.
-From PrefVerif Require Model.ELO Proofs.ELO.
+From PrefVerif Require Model.ELO Proofs.ELO Model.ELPDP Model.PartitionAlgo Model.EuclidLP Model.EuclidAlgo
+  Proofs.EuclidAlgoComplete.
 From PrefVerif Require Proofs.SP Proofs.SC Proofs.Tree Proofs.Deletion Proofs.Partition Proofs.Euclid Proofs.Approval
   Proofs.Scoring Proofs.ScoringCopeland Proofs.ScoringSAV Proofs.Bucklin Proofs.Pairwise Proofs.TreeAlgo Proofs.Relabel.
 Import ListNotations.
@@ -272,6 +277,45 @@ Theorem partition_check_profile_perm : forall alts profile profile' axes, Permut
 Proof. exact Proofs.Partition.partition_check_profile_perm. Qed.
 Print Assumptions partition_check_profile_perm.
 
+(* the MIRROR of k_alternative_deletion (Erdelyi-Lackner-Pfandler dynamic programme, Model/ELPDP.v): the number of removed
+   alternatives is the same for every admissible enumeration order (pair_first / ext_order stand for the iteration order
+   of Python sets), every storage order of ballots and alternatives, every injective renaming *)
+Theorem elp_optimum_perm : forall pair_first pair_first' ext_order ext_order',
+  (forall l X, In X (ext_order l) <-> In X l) -> (forall l X, In X (ext_order' l) <-> In X l) ->
+  forall alts alts' votes votes', NoDup alts -> votes <> [] -> (forall v, In v votes -> Permutation alts v) ->
+  Permutation alts alts' -> Permutation votes votes' ->
+  length (snd (ELPDP.k_alternative_deletion pair_first ext_order alts votes))
+  = length (snd (ELPDP.k_alternative_deletion pair_first' ext_order' alts' votes')).
+Proof. exact Proofs.Relabel.elp_optimum_perm. Qed.
+Print Assumptions elp_optimum_perm.
+
+Theorem elp_optimum_relabel : forall pair_first pair_first' ext_order ext_order',
+  (forall l X, In X (ext_order l) <-> In X l) -> (forall l X, In X (ext_order' l) <-> In X l) ->
+  forall f alts votes, injective f -> NoDup alts -> votes <> [] -> (forall v, In v votes -> Permutation alts v) ->
+  length (snd (ELPDP.k_alternative_deletion pair_first' ext_order' (map_alts f alts) (map_rankings f votes)))
+  = length (snd (ELPDP.k_alternative_deletion pair_first ext_order alts votes)).
+Proof. exact Proofs.Relabel.elp_optimum_relabel. Qed.
+Print Assumptions elp_optimum_relabel.
+
+(* the MIRROR of k_alternative_partition_brut_force (Model/PartitionAlgo.v): for every bound k, "a partition is returned"
+   and its number of axes are the same for every set-iteration order, storage order and injective renaming *)
+Theorem bf_algo_size_perm : forall set_order set_order',
+  (forall L, Permutation L (set_order L)) -> (forall L, Permutation L (set_order' L)) ->
+  forall alts alts' votes votes' k,
+  Proofs.Partition.wf_profile alts votes -> votes <> [] -> Permutation alts alts' -> Permutation votes votes' ->
+  option_map (@length (list N)) (PartitionAlgo.bf_algo set_order alts votes k)
+  = option_map (@length (list N)) (PartitionAlgo.bf_algo set_order' alts' votes' k).
+Proof. exact Proofs.Relabel.bf_algo_size_perm. Qed.
+Print Assumptions bf_algo_size_perm.
+
+Theorem bf_algo_size_relabel : forall set_order set_order',
+  (forall L, Permutation L (set_order L)) -> (forall L, Permutation L (set_order' L)) ->
+  forall f alts votes k, injective f -> Proofs.Partition.wf_profile alts votes -> votes <> [] ->
+  option_map (@length (list N)) (PartitionAlgo.bf_algo set_order' (map_alts f alts) (map_rankings f votes) k)
+  = option_map (@length (list N)) (PartitionAlgo.bf_algo set_order alts votes k).
+Proof. exact Proofs.Relabel.bf_algo_size_relabel. Qed.
+Print Assumptions bf_algo_size_relabel.
+
 (* ================================================================================================================ *)
 (* 5. 1-Euclidean (C19)                                                                                             *)
 Theorem Euclidean_perm : forall profile profile', Permutation profile profile' ->
@@ -293,6 +337,51 @@ Theorem eucl_refuted_relabel : forall f, injective f -> forall alts profile,
   Euclid.eucl_refuted (map_alts f alts) (map_rankings f profile) = Euclid.eucl_refuted alts profile.
 Proof. exact Proofs.Relabel.eucl_refuted_relabel. Qed.
 Print Assumptions eucl_refuted_relabel.
+
+(* the exact reference decider (Fourier-Motzkin over all single-peaked axes): a boolean identity *)
+Theorem eucl_decide_perm : forall alts alts' p p', NoDup alts -> Proofs.Euclid.ranked_on alts p ->
+  Permutation alts alts' -> Permutation p p' -> EuclidLP.eucl_decide alts p = EuclidLP.eucl_decide alts' p'.
+Proof. exact Proofs.Relabel.eucl_decide_perm. Qed.
+Print Assumptions eucl_decide_perm.
+
+Theorem eucl_decide_relabel : forall f alts p, injective f -> NoDup alts -> Proofs.Euclid.ranked_on alts p ->
+  EuclidLP.eucl_decide (map_alts f alts) (map_rankings f p) = EuclidLP.eucl_decide alts p.
+Proof. exact Proofs.Relabel.eucl_decide_relabel. Qed.
+Print Assumptions eucl_decide_relabel.
+
+Theorem Euclidean_relabel_inj : forall f profile, injective f ->
+  (Proofs.Euclid.Euclidean (map_rankings f profile) <-> Proofs.Euclid.Euclidean profile).
+Proof. exact Proofs.Relabel.Euclidean_relabel_inj. Qed.
+Print Assumptions Euclidean_relabel_inj.
+
+(* the MIRROR of is_one_euclidean (Model/EuclidAlgo.v), LP as a parameter: for every LP oracle that is sound (returned
+   points satisfy the mirrored constraints) and complete (None only on infeasible systems) - the exact-LP hypothesis of
+   eucl_algo_sound / eucl_algo_complete - the verdict is the same on every storage order, every order of
+   alternatives_name and every injective renaming, and for any two such oracles *)
+Theorem eucl_algo_verdict_perm : forall lp lp' alts alts' orders orders',
+  Proofs.EuclidAlgoComplete.lp_sound_spec lp -> Proofs.EuclidAlgoComplete.lp_complete lp ->
+  Proofs.EuclidAlgoComplete.lp_sound_spec lp' -> Proofs.EuclidAlgoComplete.lp_complete lp' ->
+  SC.wf_profile alts orders -> SC.wf_profile alts' orders' -> orders <> [] -> alts <> [] ->
+  Permutation alts alts' -> Permutation orders orders' ->
+  EuclidAlgo.eucl_algo_verdict lp alts orders = EuclidAlgo.eucl_algo_verdict lp' alts' orders'.
+Proof. exact Proofs.Relabel.eucl_algo_verdict_perm. Qed.
+Print Assumptions eucl_algo_verdict_perm.
+
+Theorem eucl_algo_verdict_relabel : forall f lp lp' alts orders, injective f ->
+  Proofs.EuclidAlgoComplete.lp_sound_spec lp -> Proofs.EuclidAlgoComplete.lp_complete lp ->
+  Proofs.EuclidAlgoComplete.lp_sound_spec lp' -> Proofs.EuclidAlgoComplete.lp_complete lp' ->
+  SC.wf_profile alts orders -> SC.wf_profile (map_alts f alts) (map_rankings f orders) -> orders <> [] -> alts <> [] ->
+  EuclidAlgo.eucl_algo_verdict lp' (map_alts f alts) (map_rankings f orders) = EuclidAlgo.eucl_algo_verdict lp alts orders.
+Proof. exact Proofs.Relabel.eucl_algo_verdict_relabel. Qed.
+Print Assumptions eucl_algo_verdict_relabel.
+
+(* the extracted mirror (exact Fourier-Motzkin LP oracle): no hypothesis on the LP *)
+Theorem eucl_algo_exact_verdict_perm : forall alts alts' orders orders',
+  SC.wf_profile alts orders -> SC.wf_profile alts' orders' -> orders <> [] -> alts <> [] ->
+  Permutation alts alts' -> Permutation orders orders' ->
+  EuclidAlgo.eucl_algo_verdict EuclidAlgo.lp_checked alts orders = EuclidAlgo.eucl_algo_verdict EuclidAlgo.lp_checked alts' orders'.
+Proof. exact Proofs.Relabel.eucl_algo_exact_verdict_perm. Qed.
+Print Assumptions eucl_algo_exact_verdict_perm.
 
 (* ================================================================================================================ *)
 (* 6. approval domains (C05)                                                                                        *)
@@ -378,6 +467,30 @@ Theorem is_part_relabel : forall f, injective f -> forall ballots,
   is_part (map_rankings f ballots) = option_map (map_rankings f) (is_part ballots).
 Proof. exact Proofs.Relabel.is_part_relabel. Qed.
 Print Assumptions is_part_relabel.
+
+(* ballots stored in another order: same verdict and the same partition as a SET OF SETS ... *)
+Theorem is_part_reorder : forall ballots ballots', Permutation ballots ballots' ->
+  match is_part ballots, is_part ballots' with
+  | Some parts, Some parts' =>
+      (forall s, In s parts -> exists s', In s' parts' /\ Proofs.Approval.SetEq s s') /\
+      (forall s', In s' parts' -> exists s, In s parts /\ Proofs.Approval.SetEq s' s)
+  | None, None => True
+  | _, _ => False
+  end.
+Proof. exact Proofs.Relabel.is_part_reorder. Qed.
+Print Assumptions is_part_reorder.
+
+(* ... but NOT the same list: parts come in order of first occurrence, members as in the first ballot with that set *)
+Theorem is_part_list_order_refuted : exists ballots ballots', Permutation ballots ballots' /\
+  is_part ballots <> is_part ballots'.
+Proof.
+  exact (ex_intro _ [[1; 2]; [3]; [2; 1]]%N (ex_intro _ [[3]; [2; 1]; [1; 2]]%N
+           (conj (Permutation_cons_append [[3]; [2; 1]]%N [1; 2]%N)
+                 (fun E : is_part [[1; 2]; [3]; [2; 1]]%N = is_part [[3]; [2; 1]; [1; 2]]%N =>
+                    match E in (_ = y) return (match y with Some [[3]; [2; 1]]%N => False | _ => True end) with
+                    | eq_refl => I end)))).
+Qed.
+Print Assumptions is_part_list_order_refuted.
 
 Theorem is_2_part_relabel : forall f, injective f -> forall alts ballots,
   is_2_part (map_alts f alts) (map_rankings f ballots) = option_map (map_rankings f) (is_2_part alts ballots).
